@@ -1,6 +1,6 @@
 """C14 - migrating merchant_categories.csv to merchants.rules preserves classification.
 
-Exhaustive: every single-row CSV over the full product {24 regex patterns} x {18 modifier forms} x
+Exhaustive: every single-row CSV over the full product {24 regex patterns} x {20 modifier forms} x
 {merchant names} x {category set / empty} x {tags}, plus every ordered pair (triple in thorough) over a
 reduced row alphabet; each file x the transactions its patterns and modifiers can distinguish (descriptions
 x boundary amounts x boundary dates).  The real migration (_migrate_csv_to_rules) is run in a scratch
@@ -21,7 +21,7 @@ PROPERTY = "C14"
 LEVEL = "exploration"
 RULE = ("cases = (a) every one-row CSV rule file over 24 patterns (plain, lookahead, \\b, back-reference, anchors, alternation, leading "
         "parenthesis, .*, char class, double quote, apostrophe, escaped +, literal backslash, \\d{3}, ' and ' inside a pattern, invalid regex) x "
-        "18 modifier forms (none, amount > >= < <= = range, date = range lastNdays, month, two combined) x 4 merchant names x category "
+        "20 modifier forms (none, amount > >= < <= = range, date = range lastNdays, month, two combined) x 4 merchant names x category "
         "set/empty x 4 tag forms (incl. a tag containing a comma); (b) every ordered pair (quick) / triple (thorough) over a 27-row reduced alphabet incl. comment and blank "
         "lines. Each file is classified on descriptions x boundary amounts x boundary dates (only the dimensions its rows can "
         "distinguish). non-trivial = file whose rules match at least one transaction and not all of them; files distinct by construction")
@@ -37,6 +37,8 @@ PATTERNS = ["NETFLIX", r"UBER\s(?!EATS)", r"\bUBER\b", r"(\w)\1", "^AMAZON", "GA
 MODS = ["", "[amount>100]", "[amount>=100]", "[amount<100]", "[amount<=100]", "[amount=99.75]", "[amount:50-200]",
         "[date=2025-01-15]", "[date:2025-01-01..2025-01-31]", "[month=12]", "[date:last30days]",
         "[amount>100][month=1]", "[amount:50-200][date:2025-01-01..2025-01-31]", "[amount>100][date:last30days]", "[date:last30days][month=1]",
+        # whole calendar periods: one year, two years (one month is above)
+        "[date:2025-01-01..2025-12-31]", "[date:2024-01-01..2025-12-31]",
         # operands with more than six significant digits (exact rendering of the number matters)
         "[amount>12345.67]", "[amount=12345.67]", "[amount:1000000.5-2500000.25]"]
 NAMES = ["Netflix", "A, B", "#Hash", " Padded "]
